@@ -154,6 +154,35 @@ def zero_test_results(fi):
     return out
 
 
+def _returns_bits(repo, fi, call):
+    """the callee (a function or static/class method of the same module) returns a literal bit on every return: 0, 1, True,
+    False or `1 if c else 0`"""
+    name = norm(call.func).split(".")[-1]
+    cands = [f for f in fi.module.functions.values() if f.name == name and isinstance(f.node, ast.FunctionDef)]
+    if len(cands) != 1:
+        return False
+    rets = [r for r in ast.walk(cands[0].node) if isinstance(r, ast.Return)]
+    def bit(e):
+        if isinstance(e, ast.Constant) and e.value in (0, 1, True, False) and e.value is not None:
+            return True
+        if isinstance(e, ast.IfExp):
+            return bit(e.body) and bit(e.orelse)
+        if isinstance(e, ast.Call) and norm(e.func) == "int" and len(e.args) == 1 and isinstance(e.args[0], (ast.Compare, ast.BoolOp)):
+            return True
+        return False
+    def guarded_bit(r):
+        # `if v == 0 or v == 1: return v`
+        if not isinstance(r.value, ast.Name):
+            return False
+        v = r.value.id
+        for p_ in parents(r):
+            if isinstance(p_, ast.If) and any(r is x for st in p_.body for x in ast.walk(st)) and norm(p_.test).replace(" ", "") in (
+                    "%s==0or%s==1" % (v, v), "%s==1or%s==0" % (v, v), "%sin(0,1)" % v, "%sin[0,1]" % v):
+                return True
+        return False
+    return bool(rets) and all(r.value is not None and (bit(r.value) or guarded_bit(r)) for r in rets)
+
+
 def rule_boolean(repo, rule):
     sites = []
     for m in repo.modules.values():
@@ -200,6 +229,9 @@ def rule_boolean(repo, rule):
                 vt = norm(val)
                 if "_ensurebool(" in vt and isinstance(val, (ast.Call, ast.Attribute)):
                     boolsyms[nm] = "converted with _ensurebool"
+                    env[nm] = P.sym(nm)
+                elif isinstance(val, ast.Call) and _returns_bits(repo, fi, val):
+                    boolsyms[nm] = "result of a helper that returns 0 or 1 on every path (or raises)"
                     env[nm] = P.sym(nm)
                 elif isinstance(val, ast.IfExp) and norm(val.body) == "1" and norm(val.orelse) == "0":
                     boolsyms[nm] = "normalised to 0/1"
@@ -412,6 +444,45 @@ def rule_gadgets(repo, rule):
             rule.violation(cz.loc(), cz.fq, norm(rets[0].value) if rets else "", "does not return the constrained result", "check_zero/ret")
     else:
         rule.undecided(cz.loc(), cz.fq, "hints %s" % hints, "zero-test witnesses not identified")
+    # ------------------------------------------------------------ non-zero test
+    # check_nonzero is the complement of the zero test (`~self.check_zero()`), or a gadget of its own over a result r and an
+    # inverse witness w with BOTH  x*w = r  (r = 1 forces x != 0)  and  x*(1 - r) = 0  (x != 0 forces r = 1)
+    cnz = lc.methods.get("check_nonzero")
+    if cnz is not None:
+        rets_ = [r for r in ast.walk(cnz.node) if isinstance(r, ast.Return) and r.value is not None]
+        from ..flatten import resolve_locals as _rlnz
+        if rets_ and all(norm(_rlnz(cnz.node, r.value)).replace(" ", "") in ("~%s.check_zero()" % cnz.params[0], "~(%s==0)" % cnz.params[0]) for r in rets_):
+            rule.ok(cnz.loc(rets_[0]), cnz.fq, norm(rets_[0].value), "non-zero test = complement of the zero test")
+        else:
+            envz = {cnz.params[0]: P.sym("x"), "LinComb.ONE_SAFE": P.const(1), "LinComb.ONE": P.const(1), "LinComb.ZERO": P()}
+            wz = []
+            for a in ast.walk(cnz.node):
+                if isinstance(a, ast.Assign) and isinstance(a.value, ast.Call) and norm(a.value.func).split(".")[-1] in ("PrivVal", "PrivValBool") \
+                        and len(a.targets) == 1 and isinstance(a.targets[0], ast.Name):
+                    wz.append(a.targets[0].id)
+                    envz[a.targets[0].id] = P.sym(a.targets[0].id)
+            consz = [c for c in ast.walk(cnz.node) if isinstance(c, ast.Call) and norm(c.func).split(".")[-1] in EMITTERS and len(c.args) >= 3]
+            gotz = []
+            for c in consz:
+                ps = [poly_of(x_, envz, strict=True) for x_ in c.args[:3]]
+                if None not in ps:
+                    gotz.append(ps[0] * ps[1] - ps[2])
+            okz = False
+            x_ = P.sym("x")
+            for r_ in wz:
+                for w_ in wz:
+                    if r_ == w_:
+                        continue
+                    rr_, ww_ = P.sym(r_), P.sym(w_)
+                    need = [x_ * ww_ - rr_, x_ * (1 - rr_)]
+                    if all(any(g == n_ or g == -n_ for g in gotz) for n_ in need):
+                        okz = True
+            if okz:
+                rule.ok(cnz.loc(), cnz.fq, "constraints: %s" % [str(g) for g in gotz], "non-zero test: x*w = r and x*(1 - r) = 0")
+            else:
+                rule.violation(cnz.loc(), cnz.fq, "constraints: %s" % [str(g) for g in gotz], "the non-zero test is neither the complement of "
+                               "the zero test nor the pair x*w = r, x*(1 - r) = 0: its result is not forced to [x != 0] (r = 0 with w = 0 "
+                               "must be excluded for x != 0)", "check_nonzero/gadget")
     # ------------------------------------------------------------ the primitive assertions
     # assert_zero / assert_nonzero: with an active guard of value 1 (or none at all) every completing path emits a constraint
     # that says  self = 0  /  self * w = 1 for a fresh witness w.  The emission may be the generic one (add_constraint, which
@@ -582,6 +653,12 @@ def _gate_poly(n, env):
         return None
     if isinstance(n, ast.Call) and norm(n.func).split(".")[-1] in ("LinCombBool", "_ensurefxp", "_ensurebool", "_ensurelc") and n.args:
         return _gate_poly(n.args[0], env)
+    if isinstance(n, ast.Call) and isinstance(n.func, ast.Attribute) and n.func.attr == "__if_then_else__" and len(n.args) == 2 and not n.keywords:
+        # the selection protocol:  X.__if_then_else__(other, cond)  is  X if cond else other
+        a, b, c = _gate_poly(n.func.value, env), _gate_poly(n.args[0], env), _gate_poly(n.args[1], env)
+        if a is None or b is None or c is None:
+            return None
+        return b + c * (a - b)
     return None
 
 
@@ -607,7 +684,17 @@ def rule_selection(repo, rule):
     n_sel = 0
     for r in rets:
         if guard and _prec(ite.node, r, guard[0]):
-            continue          # public condition / identical alternatives: decided before the type check
+            # public condition / identical alternatives: decided before the type check.  A value handed to the selection protocol
+            # of one of the alternatives there is still a selection on the (possibly secret) condition and must be select(c, t, f)
+            if "__if_then_else__" in norm(r.value):
+                pp = _gate_poly(r.value, dict(env))
+                if pp is not None and pp != want:
+                    rule.violation(ite.loc(r), ite.fq, "%s = %s" % (norm(r.value), pp), "the selection protocol is asked with the "
+                                   "alternatives the wrong way round: X.__if_then_else__(other, cond) is `X if cond else other`",
+                                   "select/protocol")
+                elif pp is not None:
+                    rule.ok(ite.loc(r), ite.fq, norm(r.value), "selection protocol: f + c*(t - f)")
+            continue
         v = r.value
         if isinstance(v, ast.ListComp) and isinstance(v.elt, ast.Call) and norm(v.elt.func).endswith("if_then_else") \
                 and len(v.elt.args) == 3 and norm(v.elt.args[0]) == c_ and "zip(%s, %s)" % (t_, f_) in norm(v.generators[0].iter).replace(",", ", ").replace("  ", " "):
